@@ -190,7 +190,10 @@ func c15Check(in c15Input) (string, []int) {
 				return fmt.Sprintf("accepted path #%d %q (from %q) %s", i, v.Value, e.Raw, u), nil
 			}
 			_, norm, _ := c15RefVerdict(e.Raw)
-			if v.Value != norm {
+			// The statement leaves open what a literal '+' denotes (the library has read it as a blank, the JS
+			// package keeps it); either reading is accepted, the safety clauses above hold for what is returned.
+			_, normPlus, _ := c15RefVerdict(strings.ReplaceAll(e.Raw, "+", "%2B"))
+			if v.Value != norm && v.Value != normPlus {
 				return fmt.Sprintf("accepted path #%d: returned %q, the manifest entry %q denotes %q", i, v.Value, e.Raw, norm), nil
 			}
 			if !strings.ContainsAny(e.Raw, "%+\\") && v.Value != e.Raw {
